@@ -18,6 +18,7 @@ type name2Value struct {
 	objName    string
 	fieldName  string
 	cusMsg     string
+	groupName  string // 分组名, 用于区分不同对象里相同的 validName(如: []map 里每个 map 为单独的一组)
 	reflectVal reflect.Value
 }
 
@@ -58,10 +59,12 @@ func (v *validCommon) initValid2FieldsMap(data *name2Value) {
 	if v.valid2FieldsMap == nil {
 		v.valid2FieldsMap = make(map[string][]*name2Value, 5)
 	}
-	if _, ok := v.valid2FieldsMap[data.validName]; !ok {
-		v.valid2FieldsMap[data.validName] = make([]*name2Value, 0, 2)
+	// 只有同一个对象里相同的 validName 才为一组(切片/map 里的每个元素, 嵌套的对象都是单独验证)
+	groupKey := data.objName + data.groupName + ErrEndFlag + data.validName
+	if _, ok := v.valid2FieldsMap[groupKey]; !ok {
+		v.valid2FieldsMap[groupKey] = make([]*name2Value, 0, 2)
 	}
-	v.valid2FieldsMap[data.validName] = append(v.valid2FieldsMap[data.validName], data)
+	v.valid2FieldsMap[groupKey] = append(v.valid2FieldsMap[groupKey], data)
 }
 
 // either 判断两者不能都为空
@@ -141,8 +144,8 @@ func (v *validCommon) valid(errBuf *strings.Builder) {
 		return
 	}
 
-	for validName, fieldInfos := range v.valid2FieldsMap {
-		validKey, _, _ := ParseValidNameKV(validName)
+	for _, fieldInfos := range v.valid2FieldsMap {
+		validKey, _, _ := ParseValidNameKV(fieldInfos[0].validName)
 		switch validKey {
 		case Either:
 			v.either(errBuf, fieldInfos)
